@@ -4,13 +4,13 @@
 package types
 
 // Pure validation of a genesis state: no effect on the chain state (frame), result not constrained here.
-//@ func ValidateGenesis
+//@ func ValidateGenesis(data)
 //@   property C19
 //@   returns err
 //@   invariant #1 t: true
 //@ end
 
-//@ func ValidateContents
+//@ func ValidateContents(contents)
 //@   property C19
 //@   returns err
 //@   invariant #1 t: true
